@@ -22,13 +22,26 @@ def g_seg(s) -> str:
         "; ".join("(" + g_seg(k) + ")" for k in kids))
 
 
+QUERIED_TYPES = {"select_statement", "set_expression", "with_compound_statement", "expression", "bracketed",
+                 "from_expression_element", "from_expression", "join_clause", "select_clause", "select_clause_element",
+                 "case_expression", "when_clause", "alias_expression", "function", "table_expression", "values_clause",
+                 "column_reference", "column_definition", "identifier", "literal", "window_specification", "function_name",
+                 "function_contents", "storage_location", "set_clause_list", "set_clause", "merge_update_clause",
+                 "merge_insert_clause", "merge_when_matched_clause", "merge_when_not_matched_clause", "merge_match",
+                 "common_table_expression", "table_reference", "object_reference", "file_reference", "statement"}
+
+
 def check_wf(s, problems):
-    """assumptions of the tree model, monitored on every tree"""
+    """assumptions of the tree model and of the trivia theorems (Tree/TriviaProofs.v: wf, trivia_types_ok,
+    not_trivia_types_in), monitored on every tree"""
     kids = s.segments
     if kids and s.raw != "".join(k.raw for k in kids):
         problems.append("raw of %s is not the concatenation of its children" % s.type)
-    if s.type not in s.class_types and not kids:
-        pass
+    trivia = s.is_whitespace or s.is_comment or bool(s.is_meta)
+    if (trivia or s.type == "symbol") and kids:
+        problems.append("%s segment %s has children" % ("trivia" if trivia else "symbol", s.type))
+    if trivia and (QUERIED_TYPES & set(s.class_types) or s.type in QUERIED_TYPES):
+        problems.append("trivia segment %s carries a type the extractors query" % s.type)
     for k in kids:
         check_wf(k, problems)
 
@@ -135,6 +148,12 @@ def run(records: list[dict], shard: int = 30) -> list[dict]:
 SCRIPT_HEADER = "From SV Require Import Tree.Script.\nOpen Scope string_scope."
 
 
+def _pair(p) -> str:
+    s, t = p[0], p[-1]
+    ss = str(s) if s.parent is not None else s.raw_name + "{" + ",".join(sorted(str(c) for c in s.parent_candidates)) + "}"
+    return ss + ">>" + str(t)
+
+
 def summary(lr) -> str:
     """what a user sees: source / target / intermediate tables and end-to-end column pairs"""
     src = sorted(str(t) for t in lr.source_tables)
@@ -204,6 +223,8 @@ def analyse_script(rec: dict) -> dict:
                 out["stats"] = {"statements": len(holders), "nodes": sh.graph.number_of_nodes(),
                                 "multi_rename": any(len(h.rename) > 1 for h in holders)}
                 out["summary"] = summary(lr)
+                out["stmt_pairs"] = [sorted({tuple(_pair(p).split(">>")) for p in h.get_column_lineage()}) for h in holders]
+                out["statements"] = lr.statements()
             except Exception as e:
                 out["impl"] = "ERR:" + type(e).__name__
                 out["stats"] = {"statements": len(tap.of_runner(lr)), "nodes": 0, "multi_rename": False}
